@@ -51,7 +51,7 @@ def main():
     outd = src + "_out"
     checks = sys.argv[2:] or [pid[:3]]
     meta = json.load(open(os.path.join(outd, "meta.json")))
-    demo = meta["demo_cmd"]
+    demo = meta["demo_cmd"].split("   (")[0].strip()  # some agents appended an explanation in parentheses
     rep = {"property": pid[:3], "agent_meta": meta, "confirmation": {}}
     assert sh(f"git -C {src} status --porcelain").stdout.strip() == "", "worktree not clean"
     r0 = sh(demo, timeout=1200)
